@@ -881,9 +881,10 @@ package vanguard
 //@   ensures[C06] err != nil ==> o.methodConf == old(o.methodConf)
 //@   ensures[C19] err == nil && !typeIs(o.client.protocol, restClientProtocol) && o.request.Method != "POST" ==> o.request.Method == "GET" && typeIs(o.client.protocol, connectUnaryGetClientProtocol)
 //@   ensures[C19] err == nil && !typeIs(o.client.protocol, restClientProtocol) && o.request.Method != "POST" ==> noSideEffects(o.methodConf)
-//@   ensures[C06] err == nil && !typeIs(o.client.protocol, restClientProtocol) ==> o.methodConf.methodPath == o.request.URL.Path
+// RPC-style paths are looked up by the raw path, like REST routes (C06: "raw (still percent-encoded) path")
+//@   ensures[C06] err == nil && !typeIs(o.client.protocol, restClientProtocol) ==> o.methodConf.methodPath == ufs("escapedPath", o.request.URL)
 //@   ensures[C06] err == nil && typeIs(o.client.protocol, restClientProtocol) ==> o.restTarget != nil && (o.restTarget.method == o.request.Method || o.restTarget.method == "*")
-//@   ensures[C19] err != nil && !typeIs(o.client.protocol, restClientProtocol) && has(transcoder.methods, o.request.URL.Path) && transcoder.methods[o.request.URL.Path] != nil ==> isHTTPErr(err) && httpStatus(err) == 405 && o.request.Method != "POST"
+//@   ensures[C19] err != nil && !typeIs(o.client.protocol, restClientProtocol) && has(transcoder.methods, ufs("escapedPath", o.request.URL)) && transcoder.methods[ufs("escapedPath", o.request.URL)] != nil ==> isHTTPErr(err) && httpStatus(err) == 405 && o.request.Method != "POST"
 //@   ensures o.isValid == old(o.isValid) && o.client.protocol == old(o.client.protocol) && o.originalHeaders == old(o.originalHeaders) && o.contentLen == old(o.contentLen)
 //@   modifies o.restTarget, o.restVars, o.methodConf, #LIB0
 
